@@ -286,6 +286,10 @@ func (f *Family) Explore(scn *Scenario, tier string, maxStates int) *ScenarioSta
 					continue // the process would have crashed: no successor from a half-finished cycle
 				}
 				succ := res.After
+				if f.Env.Recreate {
+					succ = succ.Clone()
+					RecreateDeleted(n.w, succ)
+				}
 				if f.MacroEnv {
 					succ = succ.Clone()
 					applyMacroEnv(succ, f.Env)
@@ -386,8 +390,25 @@ func (f *Family) ReplayPath(r *Replay) (*Transition, error) {
 			if obs != nil {
 				data = obs.Data()
 			}
+			if os.Getenv("VERIF_VERBOSE") != "" {
+				fmt.Printf("  step %d: cycle faults=%v\n", i, s.Cfg.Faults)
+				for _, d := range res.Decisions {
+					fmt.Printf("      %v [action %s]\n", d, d.AfterAction)
+				}
+				for _, p := range res.After.Pods {
+					fmt.Printf("      after: pod %s node=%q phase=%s deleting=%v\n", p.Name, p.Spec.NodeName, p.Status.Phase, p.DeletionTimestamp != nil)
+				}
+				for _, b := range res.After.BindRequests {
+					fmt.Printf("      after: bindrequest %s pod=%s node=%s phase=%s\n", b.Name, b.Spec.PodName, b.Spec.SelectedNode, b.Status.Phase)
+				}
+			}
 			last = &Transition{Scenario: r.Scenario, Path: r.Path[:i], Pre: w, Cfg: *s.Cfg, Res: res, Obs: data, Stats: map[string]int{}}
+			pre := w
 			w = res.After
+			if f.Env.Recreate {
+				w = w.Clone()
+				RecreateDeleted(pre, w)
+			}
 			if f.MacroEnv {
 				w = w.Clone()
 				applyMacroEnv(w, f.Env)
